@@ -131,6 +131,47 @@ def slowVerdict (rmTok rm2Tok : String) (out : List String) : String :=
     if out = modelOut then "OK nt b=remove-while-resolving"
     else "DIFF model=" ++ ",".intercalate modelOut
 
+/-- `dial <mode> <poll> <atMs>`: unreachable / dying targets through the REAL constructor. grpc.NewClient is lazy, so an
+    unreachable address is the model's `Outcome.ok` (the failure shows in the poller and in Streams, which the lifecycle
+    does not depend on); a construction that fails inside grpc.NewClient is `Outcome.fail`. Expected observations are
+    those of the model histories; every token is a clause of the property (addable / not addable twice, lookup,
+    Remove stops the poller, closes the connection, kept connection Unavailable, re-addable, nothing left). -/
+def dialVerdict (mode : String) (out : List String) : String :=
+  let addTok : Res → String
+    | .add .ok _ => "ok" | .add .conn _ => "conn" | .add .dialed _ => "dialed" | .add .dup _ => "dup"
+    | .add .watchP _ => "watch" | .add .watchS _ => "watch" | _ => "?"
+  let getTok : Res → String
+    | .get .absent => "absent" | .get (.usable _) => "usable" | .get .nilPresent => "nil" | _ => "?"
+  let rmTok : Res → String
+    | .removed => "t" | .notPresent => "f" | _ => "?"
+  let stTok : Res → String
+    | .unavailable => "unavail" | .streamOk => "ok" | .noHandle => "nohandle" | _ => "?"
+  let failing := mode = "nocreds" || mode = "badcfg"
+  let modelOut : List String :=
+    if failing then
+      match runR true init [.add 0 .fail, .get 0, .add 0 .fail, .remove 0] with
+      | (s, [a, g, a2, r]) =>
+        [s!"add={addTok a}", s!"get={getTok g}", s!"n={targetCount (afterR true [.add 0 .fail, .get 0]) nNames}",
+         s!"readd={addTok a2}", s!"rm={rmTok r}", s!"pollers={pollers s}", "leak=0"]
+      | _ => ["?"]
+    else
+      match runR true init [.add 0 .ok, .get 0, .remove 0] with
+      | (s1, [a, g, r]) =>
+        match runR true s1 [.get 0, .stream 0, .add 0 .ok] with
+        | (s2, [g2, st, a2]) =>
+          match runR true s2 [.remove 0] with
+          | (_, [r2]) =>
+            [s!"add={addTok a}", s!"get={getTok g}", s!"rm={rmTok r}", s!"pollers={pollers s1}", "open=0",
+             s!"get2={getTok g2}", s!"stream={stTok st}", s!"readd={addTok a2}", s!"pollers2={pollers s2}",
+             s!"rm2={rmTok r2}", "leak=0"]
+          | _ => ["?"]
+        | _ => ["?"]
+      | _ => ["?"]
+  if out = modelOut then s!"OK nt b=dial-{mode}"
+  else
+    let bad := out.filter (fun t => !modelOut.contains t)
+    s!"VIOL unreachable-target-lifecycle:{",".intercalate bad} model={" ".intercalate modelOut}"
+
 /-- `cstream <Dms> <mode> <md>`: the model's clock unit is one quarter of the deadline (D = 4; 0 = no deadline). -/
 def cstreamVerdict (d mode md : String) (out : List String) : String :=
   let avail : Option Conn.Avail :=
@@ -201,6 +242,7 @@ def handle : Handler
     else
       let bad := out.filter (fun t => !expect.contains t)
       s!"VIOL add-vs-remove-same-name:{",".intercalate bad} model={" ".intercalate expect}"
+  | ["dial", mode, _poll, _at], out => dialVerdict mode out
   | [kind, _d, mode, _n], out =>
     if kind = "cclose" || kind = "rclose" then
       -- Close / Remove while Streams wait on a not-ready connection (C16_stream_wait_ends_on_close): the model's wait
@@ -215,6 +257,18 @@ def handle : Handler
         s!"VIOL close-while-stream-waits-on-not-ready-connection:{",".intercalate bad} model={" ".intercalate expect}"
     else if kind = "cstream" then cstreamVerdict _d mode _n out
     else "BAD c16 line"
+  | ["cidle", mode, _d], out =>
+    -- the channel fell back to IDLE between two calls (C16_wait_connects_whenever_idle): the second call is established
+    -- at once, with or without a deadline
+    let expect := ["first=ok", "idle=t", "second=ok", "slow=0"]
+    if out = expect && Conn.secondCall .always = .ready then s!"OK nt b=idle-again-{mode}"
+    else s!"VIOL stream-on-idle-again-connection:{",".intercalate (out.filter (fun t => !expect.contains t))} model={" ".intercalate expect}"
+  | ["cunreach", mode, _d], out =>
+    -- unreachable target, call with a deadline: the call ends (C16_wait_returns_when_ctx_ends)
+    match out with
+    | ["ended=t", c] =>
+      if c = "code=code14" || c = "code=code4" then s!"OK nt b=unreachable-{mode}" else s!"DIFF model=ended=t,code=code14|code4"
+    | _ => s!"VIOL call-with-deadline-to-unreachable-target-never-ends:{",".intercalate out} model=ended=t"
   | ["connrace", _seed, _n], out =>
     -- Close racing Stream on one real AdaptedClientConn (C16_conn_close_stream_safe / _closed_is_final)
     let expect := ["bad=0", "panic=0", "slow=0", "after=unavail"]
